@@ -496,7 +496,7 @@ def ptb_delete_traces(tree, **params):
     """
     keep = []
     if 'keep' in params:
-        keep = params['keep'].split(',')
+        keep = str(params['keep']).split(',')
     keepcoindex = 'keepcoindex' in params
     keepall = 'keepall' in params
     slash = []
